@@ -5764,3 +5764,72 @@ func ruleAddExpiresStale(w *World, r *Report) {
 	}
 	r.ok("ADD-EXPIRES-STALE", key, w.PosOf(hooks[0]), "an expired predecessor is purged before anything is indexed or any hook runs")
 }
+
+// TIMEIDX-ORDER (C16): the old index entry goes before the new one comes.
+func ruleTimeIdxOrder(w *World, r *Report) {
+	r.Rule("TIMEIDX-ORDER", "in the transaction body built by crolt's Cron.update, the entry of a job in the time index is moved by deleting the old key and putting the new one, in that order: no Delete on a bucket is reachable from a Put on the same bucket (same bucket-name value).  The key is `due time, job id`; when a job is written again with the due time it already had (an absolute one-shot re-added with its fetched tid) old and new key are the same, and a Delete after the Put removes the entry that was just written: the job stays in the job table, has no time-index entry, never fires, and a restart does not help", 1)
+	upd := w.Method("crolt", "Cron", "update")
+	n := 0
+	bad := ""
+	withAnon(upd, func(g *ssa.Function) {
+		if g == upd {
+			return
+		}
+		type op struct {
+			in     ssa.Instruction
+			bucket ssa.Value
+			kind   string
+		}
+		var ops []op
+		allInstrs(g, func(in ssa.Instruction) {
+			c := callOf(in)
+			if c == nil {
+				return
+			}
+			f := c.StaticCallee()
+			if f == nil || f.Signature.Recv() == nil || (f.Name() != "Put" && f.Name() != "Delete") {
+				return
+			}
+			if rn := namedOf(f.Signature.Recv().Type()); rn == nil || rn.Obj().Name() != "Bucket" || len(c.Args) == 0 {
+				return
+			}
+			// receiver: tx.Bucket([]byte(name))
+			bc, ok := c.Args[0].(*ssa.Call)
+			if !ok || len(bc.Common().Args) < 2 {
+				return
+			}
+			name := bc.Common().Args[1]
+			if cv, ok := name.(*ssa.Convert); ok {
+				name = cv.X
+			}
+			name = resolveSpill(name)
+			if u, ok := name.(*ssa.UnOp); ok && u.Op == token.MUL {
+				name = u.X // the captured variable itself: every use loads it anew
+			}
+			ops = append(ops, op{in, name, f.Name()})
+		})
+		for _, p := range ops {
+			if p.kind != "Put" {
+				continue
+			}
+			for _, d := range ops {
+				if d.kind != "Delete" || d.bucket != p.bucket {
+					continue
+				}
+				n++
+				if reachable(g, p.in, d.in) {
+					bad = w.PosOf(d.in)
+				}
+			}
+		}
+	})
+	key := "fn=" + fname(upd)
+	switch {
+	case n == 0:
+		r.exempt("TIMEIDX-ORDER", key, w.Pos(upd.Pos()), "no bucket is both written and deleted from in update's transaction body: shape not recognised, not decided")
+	case bad != "":
+		r.violation("TIMEIDX-ORDER", key, bad, "the old time-index key is deleted after the new one was put: when both are the same key the job loses its only index entry")
+	default:
+		r.ok("TIMEIDX-ORDER", key, w.Pos(upd.Pos()), "delete-then-put on the time index")
+	}
+}
